@@ -307,3 +307,20 @@ func blockPos(w *World, b *ssa.BasicBlock) string {
 	}
 	return "?"
 }
+
+// alwaysReached: every normal path of the site's frame reaches the site (its
+// outermost enclosing loop, when it sits in one), unless the state on the edge
+// that goes round it satisfies allowed.
+func alwaysReached(a *Analysis, s *Site, allowed func(st *CNF) bool) (bool, string) {
+	target := s.Instr.Block()
+	if ls := enclosingLoops(target); len(ls) > 0 {
+		target = ls[len(ls)-1]
+	}
+	for _, sk := range a.skipEdges(s.Ctx, target, nil) {
+		if allowed != nil && allowed(sk.St) {
+			continue
+		}
+		return false, "a normal path goes round it at " + blockPos(a.w, sk.From)
+	}
+	return true, ""
+}
